@@ -35,9 +35,20 @@ def order_sensitive(a, b):
     return len(a) - 2 * len(b)
 
 
+def nan_on_disjoint(x, y):
+    """a similarity that is NaN for two PRESENT values without a common token (a NaN score is a score, not a
+    missing value: the pair is kept or dropped by comparing NaN with the threshold)"""
+    a, b = set(x), set(y)
+    if not (a & b):
+        return float('nan')
+    return len(a & b) / float(len(a | b))
+
+
 def make_sim(rng):
     import py_stringmatching as sm
-    k = rng.choice(['jaccard', 'cosine', 'dice', 'overlapcoef', 'lev', 'plain', 'bound', 'ordersens'])
+    k = rng.choice(['jaccard', 'cosine', 'dice', 'overlapcoef', 'lev', 'plain', 'bound', 'ordersens', 'nan_on_disjoint'])
+    if k == 'nan_on_disjoint':
+        return k, nan_on_disjoint, True
     if k == 'jaccard':
         return k, sm.Jaccard().get_raw_score, True
     if k == 'cosine':
